@@ -30,7 +30,9 @@ ASSUMPTIONS = [
     "text is ASCII; white space inside lines is the blank character; names match [a-zA-Z0-9_.-]+",
     "remote sources ($source, imports from files) are C17's subject; add_file itself is exercised because SourceNode reads "
     ".dip sources through it",
-    "comments and strings do not contain the triple quote, the marks $@00..$@02, or a backslash other than \\' and \\\" "
+    "in the generated TREE streams comments and strings do not contain the triple quote, the marks $@00..$@02 (the lexer model keeps the "
+    "three-mark encoding; texts with `$@` are covered by the marks stream and the theorems C13_literal_marks_survive / C13_marks_conservative "
+    "about the repaired functions encodeM / decodeM, which the driver runs against the real value), or a backslash other than \\' and \\\" "
     "(block strings and table cells may contain backslashes, but not directly before a quote character and not at the "
     "end of the last block line, where it would escape the closing quotes); "
     "a quoted string does not contain its own delimiter unescaped; the quoted text 'none' is not used as a string",
@@ -1161,6 +1163,7 @@ def correspond(ctx):
         ('t str = "v"\nt = "w$@02"', [["t", "str", None, None, None, "w$@02"]]),
     ]
     marks = ["$@00", "$@01", "$@02", "$@03", "$@", "$", "@01", "$@0"]
+    mark_bodies = ["a$@01b", "x$@00y", "p$@02q", "$@03", "$$@", "$@$@0303"]
     for _ in range(200 if thorough else 30):
         body = "".join(rng.choice(marks + ["a", "b ", "x1", "_", "."]) for _ in range(rng.randint(1, 5)))
         body = body.strip() or "$@01"
@@ -1171,6 +1174,17 @@ def correspond(ctx):
             q = rng.choice(['"', "'"])
             known.append(("t str = %s%s%s" % (q, body, q), [["t", "str", None, None, None, body]]))
         ctx.count("marks.generated")
+        mark_bodies.append(body if not known[-1][0].startswith("g") else body.replace(" ", ""))
+    # tie of the repaired mark functions (Lemmas/C13q.lean: encodeM / decodeM, theorem C13_literal_marks_survive) to the
+    # code: the model's round trip of the text, the value the real parser returns for `t str = "<text>"`, and the text
+    res = ctx.driver.ask_many([{"p": "C13", "marks": b} for b in mark_bodies])
+    for b, r in zip(mark_bodies, res):
+        got = impl_run('t str = "%s"' % b)
+        real = got[0][5] if isinstance(got, list) and len(got) == 1 else got
+        mod = r.get("ok", {}).get("marks")
+        ctx.count("marks.tie")
+        if mod != real:
+            ctx.disagreement("marks", {"text": 't str = "%s"' % b}, "model decodeM(encodeM) %r, real value %r" % (mod, real))
     for text, exp in known:
         impl = impl_run(text)
         ctx.case(text, True)
